@@ -226,3 +226,35 @@ def funnel(ctx: Ctx) -> None:
             isinstance(v, ast.Compare) and isinstance(v.ops[0], ast.IsNot) and isinstance(v.comparators[0], ast.Constant) and v.comparators[0].value is None
             for v in a.values) and {v.left.id for v in a.values if isinstance(v.left, ast.Name)} == {"file", "string"} for a, pol in fs) and len(fs) == 1
         ctx.expect("R-TABLE", bi, "parse runs iff file or string is given (is not None)", good, txt, f"_parse runs under {txt}: an empty string or empty stream must still be parsed", node=tc)
+
+
+def peek_copy(ctx: Ctx) -> None:
+    """The non-seekable branch of the detection peeks at a complete copy and hands a complete, re-readable copy on."""
+    from ..pat import match
+    p = ctx.p
+    fi = p.func(DETECT)
+    sp = fi.param_names()[0]
+    rebinds = [b for b in locals_of(fi).b.get(sp, []) if b.kind != "param"]
+    n = 0
+    for b in rebinds:
+        n += 1
+        v = b.value
+        good = False
+        if isinstance(v, ast.ListComp) and len(v.generators) == 1 and not v.generators[0].ifs:
+            g = v.generators[0]
+            m = match("StringIO(''.join($x))", v.elt)
+            good = m is not None and isinstance(g.target, ast.Name) and ast.unparse(m["x"]) == g.target.id and isinstance(g.iter, ast.Call) \
+                and callee_name(ctx, fi, g.iter).endswith("itertools.tee") and len(g.iter.args) == 1 and ast.unparse(g.iter.args[0]) == sp
+        else:
+            m = match("StringIO(''.join($x))", v) if v is not None else None
+            good = m is not None
+        fs = facts(ctx, fi, b.node)
+        ctx.expect("R-REWIND", fi, "an iterator input is replaced by a StringIO of its complete text", good, src(v) if v is not None else "", f"{sp} is rebound to {src(v) if v is not None else '?'}: the loader would see a partial or consumed stream", node=b.node)
+    ctx.floor("rebindings of the stream in _detect_ssc", n, 1)
+    for c in calls(fi):
+        if callee_name(ctx, fi, c).endswith("parse_msd"):
+            kw = {k.arg: k.value for k in c.keywords}
+            if "string" in kw:
+                m = match("''.join($x)", kw["string"])
+                okp = m is not None and isinstance(m["x"], ast.Name) and any(b.kind.startswith("unpack") or b.kind == "assign" for b in locals_of(fi).b.get(m["x"].id, []))
+                ctx.expect("R-REWIND", fi, "the peek parses the complete text of the other copy", okp, src(kw["string"]), f"string={src(kw['string'])}", node=c)
